@@ -374,7 +374,17 @@ type ReplayFile struct {
 	Msg      string        `json:"msg"`
 	Known    string        `json:"known,omitempty"`
 	Site     string        `json:"site,omitempty"`
+	Retries  int           `json:"retries,omitempty"` // native attempts (map-order dependent counterexamples)
 	Values   []ReplayValue `json:"values"`
+}
+
+func retriesFor(nd []NondetRec) int {
+	for _, n := range nd {
+		if strings.HasPrefix(n.Name, "maporder#") {
+			return 64
+		}
+	}
+	return 0
 }
 
 func modelValues(nd []NondetRec, m map[string]*big.Int) []ReplayValue {
@@ -620,7 +630,7 @@ func doCheck(id, tier, only string, verbose bool, workers, seed int, noNative bo
 				order = append(order, key)
 			}
 			if len(g.replays) < 3 {
-				rf := ReplayFile{Property: id, Harness: s.Harness, Package: dirOf[s.Harness], Expect: f.Kind, Msg: f.Msg, Known: f.Known, Site: f.Site, Values: modelValues(f.Nondets, f.Model)}
+				rf := ReplayFile{Property: id, Harness: s.Harness, Package: dirOf[s.Harness], Expect: f.Kind, Msg: f.Msg, Known: f.Known, Site: f.Site, Retries: retriesFor(f.Nondets), Values: modelValues(f.Nondets, f.Model)}
 				p := filepath.Join(outDir, "replay", fmt.Sprintf("%s-%s-%d-%d.json", id, s.Harness, len(order), len(g.replays)))
 				b, _ := json.MarshalIndent(rf, "", " ")
 				os.WriteFile(p, b, 0644)
